@@ -9,6 +9,10 @@ import (
 var Params = [][2]int{{2, 4}, {2, 5}, {3, 6}, {3, 7}, {4, 8}, {25, 50}, {2, 3}}
 var Kinds = []string{"ptr", "pt", "bnd"}
 
+// WideParams (C11 only): fan-outs above 64 and 128, so that single nodes hold 65..130 entries
+// (index- or count-dependent behaviour at 64/128 inside one node is exercised).
+var WideParams = [][2]int{{2, 70}, {33, 66}, {40, 130}, {64, 129}}
+
 // builder of one history; `present` is the multiset of stored ids as a list
 type hb struct {
 	r       *vproto.Rng
@@ -612,7 +616,7 @@ func Gen(seed uint64, tier string) []*Hist {
 	// extreme coordinate units (own random stream: the histories above are unchanged)
 	hs = append(hs, CorpusExtreme()...)
 	rx := vproto.NewRng(seed*7919 + 11)
-	nx := 24
+	nx := 20
 	if tier == "thorough" {
 		nx = 300
 	}
@@ -622,6 +626,16 @@ func Gen(seed uint64, tier string) []*Hist {
 			par = Params[0]
 		}
 		hs = append(hs, GenExtreme(rx, i%6, par, Kinds[i%len(Kinds)], 8+rx.Intn(40)))
+	}
+	// wide nodes
+	nw := 6
+	if tier == "thorough" {
+		nw = 60
+	}
+	for i := 0; i < nw; i++ {
+		h := GenHist(rx, []int{0, 3, 2, 1, 5}[i%5], WideParams[i%len(WideParams)], Kinds[i%len(Kinds)], 30+rx.Intn(25), 5)
+		h.Class = "wide-" + h.Class
+		hs = append(hs, h)
 	}
 	return hs
 }
